@@ -628,6 +628,24 @@ func ruleSnapshot(r *Run) {
 			n++
 			iAdd := idxOfCall(path, addP, 0)
 			r.CheckT("C7", fn.Name+":registered-before-snapshot", iAdd >= 0 && iAdd < i, ev.Pos, path, "the newcomer is a member before the snapshot is read (so no concurrent change is missed by both snapshot and relay)")
+			// … and that holds for every read that feeds the snapshot, wherever the value is kept until it is sent:
+			// a listing of the session's participants, entities or components taken before the registration
+			// misses what is added in between (and the relay of that addition does not reach the newcomer either)
+			for j := 0; j < i && iAdd >= 0; j++ {
+				pe := path.Events[j]
+				if pe.Kind != EvCall {
+					continue
+				}
+				f, ok := pe.Callee.(*types.Func)
+				if !ok {
+					continue
+				}
+				switch funcName(f) {
+				case "models.(*Session).Entities", "models.(*Session).GetParticipants", "models.(*EntityComponentStore).ListAll":
+					r.CheckT("C7", fn.Name+":reads-after-registration["+shortFuncName(f)+"]", j > iAdd, pe.Pos, path,
+						"%s is read for the snapshot before the newcomer is registered in the session: an entity, participant or component added in between is in neither the snapshot nor a relay the newcomer receives", shortFuncName(f))
+				}
+			}
 			get := func(f string) string {
 				x := litField(ml.Lit, f)
 				if x == nil {
